@@ -1,12 +1,14 @@
-(* C08 — property theorems only.  Statements are full; proofs are [exact lemma]. *)
-From Coq Require Import List NArith ZArith Bool.
-From LE Require Import Codec.Varint Codec.VarintProofs Codec.Reader Codec.Writer.
+(* C08 — property theorems only.  Statements are full; proofs are [exact lemma] (plus instantiation glue). *)
+From Coq Require Import String List NArith ZArith Bool.
+From LE Require Import Codec.Varint Codec.VarintProofs Codec.Reader Codec.Writer Codec.ReaderProofs
+                       Codec.Schema Codec.SchemaProofs Codec.SchemaProofs2 Codec.CanonProofs Gen.Schemas.
 Import ListNotations.
 Local Open Scope N_scope.
 
+(* ---- varints ---- *)
 (* readUint (Go, index-based) reads back what binary.PutUvarint wrote, for every uint64 and every context *)
 Theorem C08_varint_roundtrip : forall n pre rest, n < 2^64 ->
-  read_uint_at (pre ++ enc_varint n ++ rest) (length pre) = Ok (n, length (enc_varint n)).
+  read_uint_at (pre ++ enc_varint n ++ rest) (List.length pre) = Ok (n, List.length (enc_varint n)).
 Proof. intros. rewrite read_uint_at_app. apply varint_roundtrip. assumption. Qed.
 
 (* readUint accepts only the shortest encoding: the consumed bytes are exactly PutUvarint of the value *)
@@ -17,3 +19,126 @@ Proof.
   unfold bytes_ok in *. rewrite Forall_forall in *. intros x Hx. apply Hok.
   rewrite <- (firstn_skipn off data). apply in_or_app. right. exact Hx.
 Qed.
+
+(* ---- primitives: Read*(fn, strict) after Write*(fn, v), reader anywhere inside any buffer ---- *)
+Theorem C08_ReadUInt_WriteUInt : forall fn n strict pre post lm, fn_ok fn -> n < 2^64 -> (Z.of_nat (List.length pre) < lm)%Z ->
+  ReadUInt (at_ pre (WriteUInt fn n ++ post) lm) fn strict = Ok (n, at_ (pre ++ WriteUInt fn n) post lm).
+Proof. exact ReadUInt_WriteUInt. Qed.
+Theorem C08_ReadUInt32_WriteUInt32 : forall fn n strict pre post lm, fn_ok fn -> n < 2^32 -> (Z.of_nat (List.length pre) < lm)%Z ->
+  ReadUInt32 (at_ pre (WriteUInt32 fn n ++ post) lm) fn strict = Ok (n, at_ (pre ++ WriteUInt32 fn n) post lm).
+Proof. exact ReadUInt32_WriteUInt32. Qed.
+Theorem C08_ReadInt_WriteInt : forall fn z strict pre post lm, fn_ok fn -> (- 2^63 <= z < 2^63)%Z -> (Z.of_nat (List.length pre) < lm)%Z ->
+  ReadInt (at_ pre (WriteInt fn z ++ post) lm) fn strict = Ok (z, at_ (pre ++ WriteInt fn z) post lm).
+Proof. exact ReadInt_WriteInt. Qed.
+Theorem C08_ReadInt32_WriteInt32 : forall fn z strict pre post lm, fn_ok fn -> (- 2^31 <= z < 2^31)%Z -> (Z.of_nat (List.length pre) < lm)%Z ->
+  ReadInt32 (at_ pre (WriteInt32 fn z ++ post) lm) fn strict = Ok (z, at_ (pre ++ WriteInt32 fn z) post lm).
+Proof. exact ReadInt32_WriteInt32. Qed.
+Theorem C08_ReadBool_WriteBool : forall fn b strict pre post lm, fn_ok fn -> (Z.of_nat (List.length pre) < lm)%Z ->
+  ReadBool (at_ pre (WriteBool fn b ++ post) lm) fn strict = Ok (b, at_ (pre ++ WriteBool fn b) post lm).
+Proof. exact ReadBool_WriteBool. Qed.
+Theorem C08_ReadBytes_WriteBytes : forall fn bs strict pre post lm, fn_ok fn ->
+  (Z.of_nat (List.length (pre ++ WriteBytes fn bs ++ post)) < 2^62)%Z -> (Z.of_nat (List.length pre) < lm)%Z ->
+  ReadBytes (at_ pre (WriteBytes fn bs ++ post) lm) fn strict = Ok (bs, at_ (pre ++ WriteBytes fn bs) post lm).
+Proof. exact ReadBytes_WriteBytes. Qed.
+Theorem C08_ReadString_WriteString : forall S fn s strict pre post lm, fn_ok fn -> str_laws S -> utf8_valid S s = true ->
+  (Z.of_nat (List.length (pre ++ WriteString S fn s ++ post)) < 2^62)%Z -> (Z.of_nat (List.length pre) < lm)%Z ->
+  ReadString S (at_ pre (WriteString S fn s ++ post) lm) fn strict
+  = Ok (nfc_norm S s, at_ (pre ++ WriteString S fn s) post lm).
+Proof. exact ReadString_WriteString. Qed.
+(* packed arrays (ReadUInts/ReadUInt32s/ReadInts/ReadBools) and repeated fields (ReadBytesArray/ReadStrings/
+   ReadDecodables) are covered by the generic loop lemmas, used for every field type in C08_decode_encode *)
+Theorem C08_read_packed_write_packed : forall A (elem : reader -> res (A * reader)) (w : A -> list N) (ok : A -> Prop),
+  (forall v, ok v -> w v <> []) ->
+  (forall v pre post lm, ok v -> elem (at_ pre (w v ++ post) lm) = Ok (v, at_ (pre ++ w v) post lm)) ->
+  forall fn l pre post lm, fn_ok fn -> Forall ok l -> l <> [] ->
+  (Z.of_nat (List.length (pre ++ write_packed w fn l ++ post)) < 2^62)%Z -> (Z.of_nat (List.length pre) < lm)%Z ->
+  read_packed elem (at_ pre (write_packed w fn l ++ post) lm) fn = Ok (l, at_ (pre ++ write_packed w fn l) post lm).
+Proof. exact read_packed_write_packed. Qed.
+
+(* ---- generated codec, generic in the struct environment ---- *)
+(* Decode (Encode v) = canon v : NFC-normalised strings, nil nested message read back as the zero message *)
+Theorem C08_decode_encode : forall S E, str_laws S -> wf_env E = true ->
+  forall fuel s vs, wt_struct S E fuel s vs -> increasing 0 s = true ->
+  (Z.of_nat (List.length (encode_struct S E fuel s vs)) < 2^62)%Z ->
+  Decode S E fuel s (encode_struct S E fuel s vs) = Ok (canon_struct S E fuel s vs).
+Proof. intros S E L W. apply decode_encode; auto. apply wf_env_increasing; assumption. Qed.
+
+(* DecodeStrict accepts its own encodings, provided no top-level nested message is nil
+   (full statement without the hypothesis is false: see C08_strict_rejects_nil_nested_refuted) *)
+Theorem C08_decode_strict_encode_partial : forall S E, str_laws S -> wf_env E = true ->
+  forall fuel s vs, wt_struct S E (Datatypes.S fuel) s vs -> increasing 0 s = true -> Forall not_nil vs ->
+  (Z.of_nat (List.length (encode_struct S E (Datatypes.S fuel) s vs)) < 2^62)%Z ->
+  DecodeStrict S E (Datatypes.S fuel) s (encode_struct S E (Datatypes.S fuel) s vs)
+  = Ok (canon_struct S E (Datatypes.S fuel) s vs).
+Proof. intros S E L W. apply decode_strict_encode; auto. apply wf_env_increasing; assumption. Qed.
+
+(* re-encoding stability (IDs are hashes of re-encodings): without nil nested messages, decoding an encoding and
+   encoding again yields the same bytes *)
+Theorem C08_reencode_stable : forall S E, str_laws S -> wf_env E = true ->
+  forall fuel s vs v', wt_struct S E fuel s vs -> full fuel vs -> increasing 0 s = true ->
+  (Z.of_nat (List.length (encode_struct S E fuel s vs)) < 2^62)%Z ->
+  Decode S E fuel s (encode_struct S E fuel s vs) = Ok v' ->
+  encode_struct S E fuel s v' = encode_struct S E fuel s vs.
+Proof. intros S E L W. apply reencode_stable; auto. apply wf_env_increasing; assumption. Qed.
+
+(* strict decoding of a flat schema accepts only the canonical byte string *)
+Theorem C08_strict_accepts_only_canonical : forall S E, str_laws S ->
+  forall fuel s d vs, flat_canon s = true -> increasing 0 s = true -> bytes_ok d -> (Z.of_nat (List.length d) < 2^62)%Z ->
+  DecodeStrict S E (Datatypes.S fuel) s d = Ok vs -> d = encode_struct S E (Datatypes.S fuel) s vs.
+Proof. intros S E L. apply strict_accepts_only_canonical; assumption. Qed.
+
+(* ---- instantiation on the schemas translated from the repository ---- *)
+Definition tx_schema : schema := enc_pkg_blockchain_Transaction.
+
+(* NewTransaction = DecodeStrict + hash of Encode: the ID is the hash of exactly the accepted bytes *)
+Theorem C08_transaction_strict_canonical : forall S, str_laws S -> forall d vs, bytes_ok d ->
+  (Z.of_nat (List.length d) < 2^62)%Z ->
+  DecodeStrict S schemas_env (Datatypes.S max_depth) tx_schema d = Ok vs ->
+  d = encode_struct S schemas_env (Datatypes.S max_depth) tx_schema vs.
+Proof. intros S L d vs. apply strict_accepts_only_canonical; auto. Qed.
+
+Theorem C08_all_generated_structs_roundtrip : forall S, str_laws S -> forall nm s vs,
+  Schema.lookup schemas_env nm = Some s -> wt_struct S schemas_env (Datatypes.S max_depth) s vs ->
+  (Z.of_nat (List.length (encode_struct S schemas_env (Datatypes.S max_depth) s vs)) < 2^62)%Z ->
+  Decode S schemas_env (Datatypes.S max_depth) s (encode_struct S schemas_env (Datatypes.S max_depth) s vs)
+  = Ok (canon_struct S schemas_env (Datatypes.S max_depth) s vs).
+Proof.
+  intros S L nm s vs Hl Hwt Hs. apply decode_encode; auto.
+  - apply wf_env_increasing. exact env_wf.
+  - eapply wf_env_increasing; [exact env_wf|exact Hl].
+Qed.
+
+(* the translator's obligations, restated: the three generated bodies agree, schemas are well formed, and the
+   one integer type whose zig-zag decoding was repaired (int64) is not used by any struct *)
+Theorem C08_generated_sequences_agree :
+  forallb (fun p => let '(e, d, s) := snd p in schema_eqb e d && schema_eqb e s) all_seqs = true.
+Proof. exact seqs_agree. Qed.
+Theorem C08_generated_env_wf : wf_env schemas_env = true.
+Proof. exact env_wf. Qed.
+
+(* ---- refutations kept honest ---- *)
+Definition id_strops : strops := {| utf8_valid := fun _ => true; is_nfc := fun _ => true; nfc_norm := fun s => s |}.
+(* a struct with a nil nested message: strict decoding rejects its own encoding *)
+Theorem C08_strict_rejects_nil_nested_refuted : exists E s vs,
+  wf_env E = true /\ wt_struct id_strops E 2 s vs /\
+  DecodeStrict id_strops E 2 s (encode_struct id_strops E 2 s vs) = Err ErrFieldNumberNotFound.
+Proof.
+  exists [("A"%string, [(1, TMsg "B"%string)]); ("B"%string, [(1, TU64)])], [(1, TMsg "B"%string)], [VMsg None].
+  split; [reflexivity|]. split; [cbn; split; [eexists; reflexivity|exact I]|reflexivity].
+Qed.
+(* packed arrays are not canonical: an element may straddle the declared length *)
+Theorem C08_packed_not_canonical_refuted : exists d vs,
+  DecodeStrict id_strops [] 1 [(1, TU64s)] d = Ok vs /\ d <> encode_struct id_strops [] 1 [(1, TU64s)] vs.
+Proof. exists [10; 1; 128; 1], [VUs [128]]. split; [reflexivity|discriminate]. Qed.
+(* uint32 fields truncate silently: strict decoding accepts a value >= 2^32 *)
+Theorem C08_uint32_truncation_refuted : exists d vs,
+  DecodeStrict id_strops [] 1 [(1, TU32)] d = Ok vs /\ d <> encode_struct id_strops [] 1 [(1, TU32)] vs.
+Proof. exists [8; 128; 128; 128; 128; 16], [VU 0]. split; [vm_compute; reflexivity|discriminate]. Qed.
+
+(* ---- non-vacuity ---- *)
+Example C08_tx_example :
+  let v := [VBytes [116]; VBytes [120]; VU 5; VU (2^64 - 1); VBytes [1; 2]; VBytes []; VBytesL [[7]; []]] in
+  wt_struct id_strops schemas_env (Datatypes.S max_depth) tx_schema v /\
+  DecodeStrict id_strops schemas_env (Datatypes.S max_depth) tx_schema
+    (encode_struct id_strops schemas_env (Datatypes.S max_depth) tx_schema v) = Ok v.
+Proof. split; [cbn; repeat split; reflexivity|vm_compute; reflexivity]. Qed.
